@@ -445,7 +445,7 @@ def write_evidence(prop, tier, seed, jobs, violations, findings, wall):
     n_checks = sum(len([c for c in j.parsed['checks'] if '.cover.' not in c['id']]) for j in decided if j.parsed)
     n_covers = sum(len([c for c in j.parsed['checks'] if '.cover.' in c['id'] and c['status'] == 'SATISFIED']) for j in held if j.parsed)
     samples = []
-    for j in jobs[:60]:
+    for j in jobs[:400]:
         samples.append({'harness': j.h.name, 'mode': j.h.mode, 'instantiation': j.h.inst, 'api': j.h.funcs, 'bound': j.h.bound,
                         'kind': j.h.kind, 'result': j.state, 'wall_s': round(j.wall, 1),
                         'cbmc_checks': len(j.parsed['checks']) if j.parsed else 0,
@@ -491,6 +491,11 @@ def write_evidence(prop, tier, seed, jobs, violations, findings, wall):
     os.makedirs(os.path.join(ROOT, 'evidence'), exist_ok=True)
     with open(os.path.join(ROOT, 'evidence', f'{prop}.json'), 'w') as f:
         json.dump(ev, f, indent=1)
+    if tier == 'thorough':
+        # keep the (hours-long) thorough result next to the quick one, which a later quick run overwrites
+        os.makedirs(os.path.join(ROOT, 'evidence', 'thorough'), exist_ok=True)
+        with open(os.path.join(ROOT, 'evidence', 'thorough', f'{prop}.json'), 'w') as f:
+            json.dump(ev, f, indent=1)
 
 
 if __name__ == '__main__':
